@@ -19,7 +19,7 @@ ASSUMPTIONS = ["cryptography backend scripted (any answer): the guards are check
 PROFILE = {"ops": {"create": 8, "register": 5, "createKeyPair": 4, "deriveKey": 4, "activate": 9, "revoke": 8,
                    "destroy": 4, "encrypt": 5, "decrypt": 5, "sign": 4, "signatureVerify": 4, "mac": 5, "get": 5,
                    "getAttributes": 2, "locate": 1, "modifyAttribute": 1},
-           "groups": 0.0, "builtin_policies_only": True, "restart": 0.02}
+           "groups": 0.0, "builtin_policies_only": True, "restart": 0.02, "revoke_date": 0.3}
 MONITORS = [M.mon_c04, M.mon_c07]
 
 
